@@ -357,6 +357,14 @@ class Interp:
                 return recv
             if m == "map" and len(args) == 1 and isinstance(args[0], tuple) and args[0][0] == "closure" and (recv is None or (isinstance(recv, tuple) and recv[0] == "some")):
                 return None if recv is None else ("some", self.apply_closure(args[0], [recv[1]], depth))
+            if m == "map_or" and len(args) == 2 and isinstance(args[1], tuple) and args[1][0] == "closure" and (recv is None or (isinstance(recv, tuple) and recv[0] == "some")):
+                return args[0] if recv is None else self.apply_closure(args[1], [recv[1]], depth)
+            if m in ("is_some_and", "is_none_or") and len(args) == 1 and isinstance(args[0], tuple) and args[0][0] == "closure" and (recv is None or (isinstance(recv, tuple) and recv[0] == "some")):
+                return (m == "is_none_or") if recv is None else bool(self.apply_closure(args[0], [recv[1]], depth))
+            if m in ("is_lt", "is_gt", "is_le", "is_ge", "is_eq", "is_ne") and not args and isinstance(recv, int) and not isinstance(recv, bool):
+                return {"is_lt": recv < 0, "is_gt": recv > 0, "is_le": recv <= 0, "is_ge": recv >= 0, "is_eq": recv == 0, "is_ne": recv != 0}[m]
+            if m == "cmp" and len(args) == 1 and isinstance(recv, int) and isinstance(args[0], int):
+                return (recv > args[0]) - (recv < args[0])
             if m == "unwrap_or" and len(args) == 1 and (recv is None or (isinstance(recv, tuple) and recv[0] == "some")):
                 return args[0] if recv is None else recv[1]
             if m == "unwrap" and not args and isinstance(recv, tuple) and recv[0] == "some":
